@@ -946,6 +946,11 @@ class RealRejecting:
     self.ev_new = ev.Event(signal="W_REJECTED")
     self.outcome = {}
     self.bodies = {0: self.caller_body(), 1: lambda: obj.run_event(self.task, self.fabric, obj.queue)}
+    if info.get("canceller"):
+      ids = [r.uuid for r in obj.posted_events_queue]
+      import uuid as _uuid
+      key = ids[0] if info["canceller"] == "old" else _uuid.uuid4()
+      self.bodies[3] = lambda: obj.cancel_event(key)
 
   def caller_body(self):
     info = self.info
